@@ -327,6 +327,12 @@ pub fn leaf_texts(tier: &str) -> Vec<String> {
     for t in [">=1.0.0+b", "1.0.0+b", "<=2.0.0+b.1", ">1.0.0+b <2.0.0+c"] {
         out.push(t.to_string());
     }
+    // spellings whose unusual constructor path must end in an ordinary value: an alternative written
+    // the wrong way round or contradictory is dropped (a constructor that skips the validation of
+    // BoundSet::new would keep an inverted interval; C09-7)
+    for t in ["2.0.0 - 1.0.0 || 1.0.0", "1.0.0 || 2.0.0 - 1.0.0", "1.0.0 - 1.0.0-a || 2.0.0", "2 - 1 || 2.0.0", ">=2.0.0 <1.0.0 || 1.0.0", ">1.0.0 <1.0.0 || 2.0.0", "1.0.0 - 2.0.0", "1.0.0-a - 2.0.0"] {
+        out.push(t.to_string());
+    }
     let mut one: Vec<String> = vec![];
     for v in &tv {
         for op in ["<", "<=", ">", ">=", ""] {
